@@ -339,6 +339,11 @@ class Lib(Interp):
             return s_str(f(v.k, v.r))
         if v.kind == "int":
             return self.py_str(v)
+        if v.kind == "ref":
+            # the text of an object's repr is left uninterpreted (a function of the object's class and identity), as in py_str
+            self.p.uf_used.add("obj_repr")
+            f = z3.Function("obj_repr", z3.IntSort(), z3.IntSort(), z3.StringSort())
+            return s_str(f(v.cls, v.ref))
         raise Unsupported(f"repr of {v.kind}")
 
     def b_list(self, args, kwargs):
